@@ -3,6 +3,7 @@
 #define VF_HIST_CORE_H
 
 #include <fcntl.h>
+#include <sys/wait.h>
 
 #include <functional>
 #include <set>
@@ -42,6 +43,7 @@ class HistRunner {
   explicit HistRunner(Report *r) : rep(r) {}
   ~HistRunner() {}
   bool verbose = false;
+  std::set<std::string> known;   // ids of open known findings (excluded by signature)
 
   bool run(const Case &c, Failure *f) {
     bool ok = true;
@@ -179,7 +181,10 @@ class HistRunner {
     }
     opts.clear();
     io_reset();
+    if (!clean && getenv("VF_KEEP")) { std::string cmd = "rm -rf /tmp/vf-keep-hist; cp -r " + dir + " /tmp/vf-keep-hist"; if (system(cmd.c_str())) {} }
     rm_rf(dir);
+    for (auto &b : backups) rm_rf(b.path);
+    backups.clear();
   }
 
   void finish_report(const Case &c, bool ok) {
@@ -190,6 +195,9 @@ class HistRunner {
     if (c06_nt) rep->fp("C06.nt", h);
     if (c07_nt) rep->fp("C07.nt", h);
     if (c13_nt) rep->fp("C13.nt", h);
+    if (c20_nt) rep->fp("C20.nt", h);
+    if (c20_nt) rep->count("class.C20_nontrivial");
+    if (c20_failed_open) rep->count("class.C20_failed_open_then_reopen");
     for (uint64_t lh : layout_hashes) rep->fp("C14.nt", lh);
     if (had_reopen) rep->count("class.reopen");
     if (had_bigval) rep->count("class.value>=64KiB");
@@ -252,8 +260,10 @@ class HistRunner {
   }
 
   // compare one point read against a view
+  std::set<std::string> poisoned;   // keys hit by an open known finding (C19): excluded from later reads
   void check_get(const std::string &k, const ModelMap &view, const ldb_snapshot_t *snap, const Op &op,
                  const char *prop, bool use_has = false) {
+    if (poisoned.count(k)) return;
     ldb_slice_t ks = slice_of(k), val;
     ldb_readopt_t ro = readopt(op, snap);
     int rc;
@@ -486,9 +496,22 @@ class HistRunner {
     recently_unlinked.clear();
     std::string why;
     if (final_pass) summary_cache.clear();  // the last check re-decodes every table from disk
-    if (!layout_deep_check(L, dir, less.kind, &why, &summary_cache)) {
+    if (!layout_deep_check(L, dir, less.kind, &why, &summary_cache, repaired_l0_unordered)) {
       std::string p = why.substr(0, 3);
-      VF_FAIL(p == "C13" ? "C13" : "C14", "%s", why.c_str());
+      // after ldb_repair every table sits in level 0 under its old number, so level-0 number order no longer follows data
+      // age: the same root cause as the known C19 finding (stale point reads after repair)
+      if (was_repaired && why.find("in L0 table") != std::string::npos && why.find("is not older than") != std::string::npos &&
+          why.find("in L0 table", why.find("is not older than")) != std::string::npos) {
+        if (known.count("repair-stale-get-file-order")) {
+          rep->count("known.repair-stale-get-file-order");
+          repaired_l0_unordered = true;
+          if (!layout_deep_check(L, dir, less.kind, &why, &summary_cache, true)) VF_FAIL(why.substr(0, 3) == "C13" ? "C13" : "C14", "%s", why.c_str());
+        } else {
+          throw Violation{"C19:repair-stale-get-file-order", "after repair the level-0 tables are not ordered by age: " + why};
+        }
+      } else {
+        VF_FAIL(p == "C13" ? "C13" : "C14", "%s", why.c_str());
+      }
     }
     check_manifest_against_layout(L);
     if (nonempty >= 2 || multi) layout_hashes.insert(L.hash());
@@ -502,7 +525,7 @@ class HistRunner {
       for (auto &n : names) {
         uint64_t num; std::string kind;
         if (n == "CURRENT" || n == "LOCK" || n == "LOG" || n == "LOG.old") continue;
-        if (!parse_db_filename(n, &num, &kind)) VF_FAIL("C13", "unexpected file %s in the database directory", n.c_str());
+        if (!parse_db_filename(n, &num, &kind)) continue;  // not a database file (foreign file, repair's lost/ directory)
         if (kind == "table") {
           if (!live.count(num)) VF_FAIL("C13", "leaked table file %s: not in the layout after cleanup with no iterators alive", n.c_str());
         } else if (kind == "log") { nlogs++; if (num > max_log) max_log = num; }
@@ -589,8 +612,11 @@ class HistRunner {
             }
           if (!iters.empty()) c13_nt = true;
         }
-      } else if (e.kind == IO_OPEN && (e.flags & O_CREAT) && (e.flags & O_ACCMODE) != O_RDONLY) {
+      } else if (e.kind == IO_OPEN && (e.flags & O_CREAT) && (e.flags & O_TRUNC) && (e.flags & O_ACCMODE) != O_RDONLY) {
+        // new files are created with O_TRUNC; an O_APPEND open of an existing log/MANIFEST (reuse_logs) is not a creation
         if (!parse_db_filename(e.path, &num, &kind)) continue;
+        if (min_new_number && (kind == "table" || kind == "log" || kind == "manifest") && num <= min_new_number && e.path.find('/') == std::string::npos)
+          VF_FAIL("C19", "after repair the new file %s takes number %llu, not above the largest number present at repair time (%llu)", e.path.c_str(), (unsigned long long)num, (unsigned long long)min_new_number);
         if (kind == "table") {
           for (auto &p : iters)
             if (p.second.pinned.count(num))
@@ -805,6 +831,20 @@ class HistRunner {
       if (!cfg.reuse) { writes_since_flush = 0; note_tomb_flushed(); }
       structural_check(true);
       full_check();
+    } else if (n == "repair") {
+      op_repair(op);
+    } else if (n == "backup") {
+      op_backup(op);
+    } else if (n == "bcheck") {
+      op_bcheck();
+    } else if (n == "copy") {
+      op_copy(op);
+    } else if (n == "destroy") {
+      op_destroy(op);
+    } else if (n == "lockprobe") {
+      op_lockprobe();
+    } else if (n == "badopen") {
+      op_badopen(op);
     } else if (n == "check") {
       full_check();
     } else if (n == "prop") {
@@ -828,6 +868,354 @@ class HistRunner {
   }
   std::string cmp_name_locked;
 
+  // ------------------------------------------------------------------ C19
+  struct Version { uint64_t seq; bool del; std::string value; uint64_t file; bool from_log; };
+
+  // newest-wins contents computed independently from the surviving files (reference decoders)
+  void durable_contents(std::map<std::string, std::vector<Version>> &all) {
+    for (auto &n : list_dir(dir)) {
+      uint64_t num; std::string kind;
+      if (!parse_db_filename(n, &num, &kind)) continue;
+      std::string bytes;
+      if (!read_file(dir + "/" + n, bytes)) continue;
+      if (kind == "table") {
+        ref::Table t;
+        std::string err;
+        // an output abandoned by a compaction that ldb_close interrupted is incomplete; whatever repair salvages from it
+        // are copies (same sequence numbers) of entries that are still in the compaction's inputs
+        if (!ref::table_decode(bytes, &t, &err)) { rep->count("undecodable_table_at_repair"); continue; }
+        for (auto &e : t.entries) {
+          ref::IKey ik;
+          if (!ref::ikey_parse(e.key, &ik)) continue;
+          all[ik.user].push_back(Version{ik.seq, ik.type == 0, e.value, num, false});
+        }
+      } else if (kind == "log") {
+        ref::LogDecode ld = ref::log_decode(bytes);
+        for (auto &rec : ld.records) {
+          ref::Batch b;
+          if (!ref::batch_decode(rec, &b)) continue;
+          uint64_t sq = b.seq;
+          for (auto &o : b.ops) all[o.key].push_back(Version{sq++, !o.put, o.value, num, true});
+        }
+      }
+    }
+    for (auto &p : all) std::sort(p.second.begin(), p.second.end(), [](const Version &a, const Version &b) { return a.seq > b.seq; });
+  }
+
+  void op_repair(const Op &op) {
+    if (!db) { rep->count("skipped_ops"); return; }
+    int variant = op.args.size() ? atoi(op.args[0].c_str()) : 0;
+    close_db();
+    if (sched_on) sched_quiesce();
+    process_trace();
+    min_new_number = 0;  // repair itself rewrites MANIFEST-000001 by design
+    std::map<std::string, std::vector<Version>> all;
+    durable_contents(all);
+    ModelMap durable(less);
+    bool multi_file_key = false;
+    for (auto &p : all) {
+      if (!p.second.front().del) durable[p.first] = std::make_shared<const std::string>(p.second.front().value);
+      std::set<uint64_t> files;
+      for (auto &v : p.second) files.insert(v.file);
+      if (files.size() >= 2) multi_file_key = true;
+    }
+    // The surviving files may hold more than was acknowledged as live: a table that an iterator pinned until close is
+    // obsolete but still on disk, and the tombstone that hid its entries may already have been compacted away.  Repair
+    // is judged against the files (that is what C19 states), and the history continues from those contents.
+    for (auto &p : model) {
+      auto it = durable.find(p.first);
+      if (it == durable.end() || *it->second != *p.second)
+        VF_FAIL("C01", "before repair: the surviving files do not hold the acknowledged value of %s as their newest version", show_key(p.first).c_str());
+    }
+    if (durable.size() != model.size()) rep->count("repair_resurrects_from_obsolete_table");
+    model = durable;
+    for (auto &p : durable) universe.insert(p.first);
+    uint64_t max_before = 0;
+    for (auto &n : list_dir(dir)) { uint64_t num; std::string kind; if (parse_db_filename(n, &num, &kind) && num > max_before) max_before = num; }
+    // metadata loss / damage
+    std::string cur;
+    read_file(dir + "/CURRENT", cur);
+    std::string mname = cur.empty() ? "" : cur.substr(0, cur.size() - 1);
+    switch (variant % 6) {
+      case 0: unlink((dir + "/CURRENT").c_str()); break;
+      case 1: if (!mname.empty()) unlink((dir + "/" + mname).c_str()); break;
+      case 2: unlink((dir + "/CURRENT").c_str()); if (!mname.empty()) unlink((dir + "/" + mname).c_str()); break;
+      case 3: { std::string mb; if (!mname.empty() && read_file(dir + "/" + mname, mb)) write_file(dir + "/" + mname, mb.substr(0, mb.size() / 2)); break; }
+      case 4: write_file(dir + "/CURRENT", "MANIFEST-999999\n"); break;
+      default: break;  // metadata intact
+    }
+    opts.build(cfg);
+    sched_call_begin();
+    int rc = ldb_repair(dir.c_str(), &opts.opt);
+    sched_call_end();
+    if (rc != LDB_OK) VF_FAIL("C19", "ldb_repair returns %d (metadata variant %d)", rc, variant % 6);
+    open_db_tagged("C19", "ldb_open after repair");
+    trace_pos = io_trace().size();  // directory operations of repair itself are not iterator-safety events
+    summary_cache.clear();
+    have_layout = false;
+    recently_unlinked.clear();
+    // every key has the newest surviving value, for lookups and iterators alike
+    Op dummy;
+    try {
+      check_scan(model, nullptr, "C19");
+    } catch (Violation &v) { v.prop = "C19"; v.msg = "after repair: " + v.msg; throw; }
+    for (auto &k : universe) {
+      ldb_slice_t ks = slice_of(k), val;
+      int g = ldb_get(db, &ks, &val, nullptr);
+      std::string got;
+      bool found = (g == LDB_OK);
+      if (found) { got = str_of(val); ldb_free(val.data); }
+      else if (g != LDB_NOTFOUND) VF_FAIL("C19", "after repair: get(%s) rc=%d", show_key(k).c_str(), g);
+      auto m = model.find(k);
+      bool want = m != model.end();
+      if (found == want && (!found || got == *m->second)) continue;
+      // signature of the known finding: the answer is an OLDER version of k that lives in a higher-numbered
+      // table than the one holding the newest version (repair puts every table in level 0, where lookups go by file number)
+      auto &vs = all[k];
+      bool sig = false;
+      if (vs.size() >= 2) {
+        uint64_t newest_file = vs.front().file;
+        for (size_t i = 1; i < vs.size(); i++) {
+          bool same = vs[i].del ? !found : (found && vs[i].value == got);
+          if (same && vs[i].file > newest_file) sig = true;
+        }
+      }
+      if (sig && known.count("repair-stale-get-file-order")) { rep->count("known.repair-stale-get-file-order"); poisoned.insert(k); continue; }
+      if (sig) throw Violation{"C19:repair-stale-get-file-order", sfmt("after repair get(%s) returns an older version held in a higher-numbered table than the newest one (iterator correct)", show_key(k).c_str())};
+      VF_FAIL("C19", "after repair: get(%s) %s, newest surviving version is %s", show_key(k).c_str(), found ? ("returns " + show_val(got)).c_str() : "returns NOTFOUND",
+              want ? show_val(*m->second).c_str() : "a deletion");
+    }
+    min_new_number = max_before;
+    was_repaired = true;
+    flush_epoch++;
+    writes_since_flush = 0;
+    rep->count("repairs");
+    if (multi_file_key) rep->fp("C19.nt", fnv1a(sfmt("%zu/%d/", universe.size(), variant % 6) + last_layout.str() + std::to_string(max_before)));
+    if (multi_file_key) rep->count("class.C19_key_versions_in_2_files");
+  }
+  uint64_t min_new_number = 0;
+  bool was_repaired = false, repaired_l0_unordered = false;
+
+  void open_db_tagged(const char *prop, const char *what) {
+    opts.build(cfg);
+    sched_call_begin();
+    int rc = ldb_open(dir.c_str(), &opts.opt, &db);
+    sched_call_end();
+    if (rc != LDB_OK) { db = nullptr; VF_FAIL(prop, "%s fails rc=%d", what, rc); }
+  }
+
+  // ------------------------------------------------------------------ C20
+  struct Backup { std::string path; ModelMap view; };
+  std::vector<Backup> backups;
+  int backup_seq = 0;
+
+  std::map<std::string, std::string> snapshot_dir_bytes(const std::string &d) {
+    std::map<std::string, std::string> m;
+    for (auto &n : list_dir(d)) {
+      if (n == "LOG" || n == "LOG.old" || n == "LOCK") continue;
+      std::string b;
+      if (read_file(d + "/" + n, b)) m[n] = b;
+    }
+    return m;
+  }
+
+  void compare_db_with(const std::string &path, const ModelMap &view, const char *what, bool write_probe) {
+    DbOptions o2;
+    o2.build(cfg);
+    o2.opt.create_if_missing = 0;
+    ldb_t *d2 = nullptr;
+    sched_call_begin();
+    int rc = ldb_open(path.c_str(), &o2.opt, &d2);
+    sched_call_end();
+    if (rc != LDB_OK) VF_FAIL("C20", "%s: cannot be opened as an independent database (rc=%d)", what, rc);
+    ldb_t *saved = db;
+    db = d2;
+    try {
+      check_scan(view, nullptr, "C20");
+      if (write_probe) {
+        std::string k = "zz-written-into-the-copy", v = "x";
+        ldb_slice_t ks = slice_of(k), vs = slice_of(v);
+        if (ldb_put(d2, &ks, &vs, nullptr) != LDB_OK) VF_FAIL("C20", "%s: the copy is not writable", what);
+      }
+    } catch (Violation &v) {
+      db = saved;
+      sched_call_begin(); ldb_close(d2); sched_call_end();
+      v.prop = "C20";
+      v.msg = std::string(what) + ": " + v.msg;
+      throw;
+    }
+    db = saved;
+    sched_call_begin();
+    ldb_close(d2);
+    sched_call_end();
+  }
+
+  void op_backup(const Op &) {
+    if (!db) { rep->count("skipped_ops"); return; }
+    if (backups.size() >= 3) { rep->count("skipped_ops"); return; }
+    Backup b;
+    b.path = dir + sfmt(".bak%d", backup_seq++);
+    rm_rf(b.path);
+    bool nt = writes_since_flush > 0 && have_layout && last_layout.files() >= 1;
+    sched_call_begin();
+    int rc = ldb_backup(db, b.path.c_str());
+    sched_call_end();
+    if (rc != LDB_OK) VF_FAIL("C20", "ldb_backup returns %d", rc);
+    b.view = model;
+    // independently openable, equal to the source at this moment; writing into it must not touch the source
+    compare_db_with(b.path, b.view, "backup just taken", true);
+    b.view[std::string("zz-written-into-the-copy")] = std::make_shared<const std::string>("x");
+    backups.push_back(b);
+    // the source is unchanged and usable
+    Op dummy;
+    for (auto &k : universe) check_get(k, model, nullptr, dummy, "C20");
+    { std::string k = "zz-written-into-the-copy"; ldb_slice_t ks = slice_of(k); if (ldb_has(db, &ks, nullptr) == LDB_OK && !model.count(k)) VF_FAIL("C20", "a write into the backup appeared in the source"); }
+    rep->count("backups");
+    if (nt) backup_nt = true;
+  }
+  bool backup_nt = false;
+
+  void op_bcheck() {
+    // later source writes never appear in an earlier backup
+    for (auto &b : backups) compare_db_with(b.path, b.view, "backup re-opened later", false);
+    if (!backups.empty() && backup_nt) c20_nt = true;
+  }
+  bool c20_nt = false;
+
+  void op_copy(const Op &) {
+    if (!db) { rep->count("skipped_ops"); return; }
+    std::string to = dir + sfmt(".copy%d", backup_seq++);
+    rm_rf(to);
+    // copying an open database is refused (options of the open handle must not be rebuilt while it is in use)
+    int rc;
+    {
+      DbOptions o2;
+      o2.build(cfg);
+      rc = ldb_copy(dir.c_str(), to.c_str(), &o2.opt);
+    }
+    if (rc == LDB_OK) VF_FAIL("C20", "ldb_copy of an open database succeeded; it must be refused while the lock is held");
+    if (file_size(to + "/CURRENT") >= 0) VF_FAIL("C20", "refused ldb_copy left files behind");
+    rm_rf(to);
+    close_db();
+    if (sched_on) sched_quiesce();
+    auto before = snapshot_dir_bytes(dir);
+    opts.build(cfg);
+    rc = ldb_copy(dir.c_str(), to.c_str(), &opts.opt);
+    if (rc != LDB_OK) VF_FAIL("C20", "ldb_copy of a closed database returns %d", rc);
+    if (snapshot_dir_bytes(dir) != before) VF_FAIL("C20", "ldb_copy modified the source directory");
+    compare_db_with(to, model, "copy of the closed database", true);
+    if (snapshot_dir_bytes(dir) != before) VF_FAIL("C20", "writing into the copy modified the source directory");
+    ldb_destroy(to.c_str(), &opts.opt);
+    rm_rf(to);
+    open_db_tagged("C20", "reopening the source after ldb_copy");
+    flush_epoch++;
+    if (!cfg.reuse) writes_since_flush = 0;
+    full_check();
+    rep->count("copies");
+  }
+
+  void op_destroy(const Op &) {
+    if (!db) { rep->count("skipped_ops"); return; }
+    close_db();
+    if (sched_on) sched_quiesce();
+    // foreign files that destroy must leave alone
+    std::map<std::string, std::string> foreign = {{"notes.txt", "hello"}, {"000001.txt", "not a table"}, {"MANIFEST-abc", "not a manifest"}, {"CURRENT.bak", "x"}, {"7.ldbx", "y"}};
+    for (auto &f : foreign) write_file(dir + "/" + f.first, f.second);
+    mkdir((dir + "/subdir").c_str(), 0755);
+    write_file(dir + "/subdir/000005.ldb", "a table-like name inside a foreign directory");
+    opts.build(cfg);
+    int rc = ldb_destroy(dir.c_str(), &opts.opt);
+    if (rc != LDB_OK) VF_FAIL("C20", "ldb_destroy returns %d", rc);
+    for (auto &n : list_dir(dir)) {
+      uint64_t num; std::string kind;
+      if (n == "CURRENT" || n == "LOCK" || n == "LOG" || n == "LOG.old" || parse_db_filename(n, &num, &kind)) VF_FAIL("C20", "ldb_destroy left the database file %s behind", n.c_str());
+    }
+    for (auto &f : foreign) { std::string b; if (!read_file(dir + "/" + f.first, b) || b != f.second) VF_FAIL("C20", "ldb_destroy removed or changed the foreign file %s", f.first.c_str()); }
+    { std::string b; if (!read_file(dir + "/subdir/000005.ldb", b)) VF_FAIL("C20", "ldb_destroy removed a file inside a foreign sub-directory"); }
+    // clean up the foreign files ourselves and start afresh
+    rm_rf(dir);
+    model.clear();
+    universe.clear();
+    write_epoch.clear();
+    first_write_epoch.clear();
+    pending_tomb.clear();
+    created_numbers_tables.clear();
+    summary_cache.clear();
+    have_layout = false;
+    recently_unlinked.clear();
+    min_new_number = 0;
+    was_repaired = false;
+    repaired_l0_unordered = false;
+    poisoned.clear();
+    open_db_tagged("C20", "re-creating the database after ldb_destroy");
+    trace_pos = io_trace().size();
+    writes_since_flush = 0;
+    rep->count("destroys");
+  }
+
+  void op_lockprobe() {
+    if (!db) { rep->count("skipped_ops"); return; }
+    // same process, second handle
+    DbOptions o2;
+    o2.build(cfg);
+    ldb_t *d2 = nullptr;
+    sched_call_begin();
+    int rc = ldb_open(dir.c_str(), &o2.opt, &d2);
+    sched_call_end();
+    if (rc == LDB_OK) { sched_call_begin(); ldb_close(d2); sched_call_end(); VF_FAIL("C20", "a second ldb_open of the open directory succeeded in the same process"); }
+    // another process
+    fflush(stdout);
+    pid_t pid = fork();
+    if (pid == 0) {
+      sched_detach_child();
+      DbOptions o3;
+      o3.build(cfg);
+      ldb_t *d3 = nullptr;
+      int r3 = ldb_open(dir.c_str(), &o3.opt, &d3);
+      _exit(r3 == LDB_OK ? 7 : 0);
+    }
+    int st = 0;
+    waitpid(pid, &st, 0);
+    if (WIFEXITED(st) && WEXITSTATUS(st) == 7) VF_FAIL("C20", "ldb_open of the open directory succeeded from another process");
+    if (!WIFEXITED(st) || WEXITSTATUS(st) != 0) rep->count("lockprobe_child_abnormal");
+    // the first handle still works
+    Op dummy;
+    int n = 0;
+    for (auto &k : universe) { check_get(k, model, nullptr, dummy, "C20"); if (++n > 10) break; }
+    rep->count("lockprobes");
+  }
+
+  void op_badopen(const Op &op) {
+    if (!db) { rep->count("skipped_ops"); return; }
+    int variant = op.args.size() ? atoi(op.args[0].c_str()) : 0;
+    close_db();
+    if (sched_on) sched_quiesce();
+    auto before = snapshot_dir_bytes(dir);
+    DbOptions o2;
+    DbConfig c2 = cfg;
+    std::string what;
+    if (variant % 3 == 0) { o2.build(c2); o2.opt.error_if_exists = 1; what = "error_if_exists"; }
+    else if (variant % 3 == 1) { c2.cmp = (cfg.cmp == "reverse") ? "lenfirst" : "reverse"; o2.build(c2); what = "comparator mismatch"; }
+    else { o2.build(c2); o2.opt.create_if_missing = 0; what = "create_if_missing=0 on a missing directory"; }
+    ldb_t *d2 = nullptr;
+    std::string target = (variant % 3 == 2) ? dir + ".missing" : dir;
+    sched_call_begin();
+    int rc = ldb_open(target.c_str(), &o2.opt, &d2);
+    sched_call_end();
+    if (rc == LDB_OK) { sched_call_begin(); ldb_close(d2); sched_call_end(); VF_FAIL("C20", "ldb_open with %s succeeded; it must be refused", what.c_str()); }
+    if (variant % 3 == 2) rm_rf(target);
+    if (sched_on) sched_quiesce();
+    if (snapshot_dir_bytes(dir) != before) VF_FAIL("C20", "a refused ldb_open (%s) modified the database files", what.c_str());
+    // the lock is released after the failed open: a correct open succeeds, from this process and from another
+    open_db_tagged("C20", ("correct ldb_open after a failed open (" + what + ")").c_str());
+    flush_epoch++;
+    if (!cfg.reuse) writes_since_flush = 0;
+    full_check();
+    rep->count("failed_opens");
+    c20_failed_open = true;
+  }
+  bool c20_failed_open = false;
+
   void note_tomb_flushed() {
     if (!pending_tomb.empty()) { had_tomb_above = true; pending_tomb.clear(); }
   }
@@ -835,6 +1223,7 @@ class HistRunner {
   void final_checks() {
     if (!db) return;
     full_check();
+    op_bcheck();
     final_pass = true;
     structural_check(false);
     for (auto &p : iters) {
